@@ -180,7 +180,7 @@ def _ops_obs(path):
 def _find_obs(start, label, path, single, strict, as_segments=None):
     try:
         # find() also accepts an iterable of segments (pathexpr joins it with "/")
-        arg = path
+        arg = path  # a str, or a compiled PathExpression
         if as_segments == "tuple":
             arg = tuple(path.split("/"))
         elif as_segments == "list":
@@ -204,13 +204,54 @@ def _denote_obs(ast, start, label, single, strict):
     return cm.single_of(strict, r) if single else r
 
 
+def _removed_ids(case, byid):
+    return frozenset(id(byid[r["id"]]) for r in case.get("removed", []))
+
+
+def _expectation(ast, start, label, single, strict, removed=frozenset()):
+    """what the documented reading allows find() to do: an exact observation, {"one-of": [...]} for a lax
+    single lookup with several matches (documented as unspecified), or {"error-one-of": [...]} when some
+    element raises: a real evaluation stops at the first error it meets, and with strict lookups AND a step
+    written with stride 0 that may be either LookupError or ValueError depending on the order of evaluation"""
+    els, kinds = cm.doc_outcomes(ast, start, strict, removed)
+    if kinds:
+        return {"error-one-of": sorted(kinds)}
+    ids = cm.labels(label, els)
+    if not single:
+        return {"list": ids}
+    if len(ids) > 1 and not strict:
+        return {"one-of": ids}
+    return cm.single_of(strict, {"list": ids})
+
+
+def _matches(observed, exp):
+    if "error-one-of" in exp:
+        return observed.get("error") in exp["error-one-of"]
+    if "one-of" in exp:
+        return "one" in observed and observed["one"] in exp["one-of"]
+    return observed == exp
+
+
+def _asis_obs(ast, start, label, single, strict):
+    """the reading that follows the raw parent pointers (prediction for removed members)"""
+    try:
+        r = {"list": cm.labels(label, cm.doc_denote(ast, start, strict, asis=True))}
+    except LookupError:
+        r = {"error": "LookupError"}
+    except ValueError:
+        r = {"error": "ValueError"}
+    except NotImplementedError:
+        r = {"error": "NotImplementedError"}
+    return cm.single_of(strict, r) if single else r
+
+
 class C14(Property):
     id = "C14"
     title = "Path expressions select what the documented path syntax denotes"
     proof_module = "Proofs.C14"
     theorems = [
         "Flatland.C14.Proofs.evalOps_denotes",
-        "Flatland.C14.Proofs.tokenize_noZero",
+        "Flatland.C14.Proofs.find_error",
         "Flatland.C14.Proofs.find_denotes",
         "Flatland.C14.Proofs.single_spec",
         "Flatland.C14.Proofs.pySlice_negidx",
@@ -230,8 +271,10 @@ class C14(Property):
         "Flatland.C14.Proofs.find_lax_never_lookup",
         "Flatland.C14.Proofs.strict_ok_eq_lax",
         "Flatland.C14.Proofs.no_names_never_raises",
-        "Flatland.C14.Proofs.zero_stride_reads_as_one",
-        "Flatland.C14.Proofs.C14_zero_step_fails",
+        "Flatland.C14.Proofs.zero_stride_stays_zero",
+        "Flatland.C14.Proofs.zero_step_raises",
+        "Flatland.C14.Proofs.C14_zero_step_ok",
+        "Flatland.C14.Proofs.find_print_denotes_lax",
     ]
     generated_obligations = []
     trusted_base = [
@@ -244,8 +287,12 @@ class C14(Property):
         "the expression cache (expression_cache, max 1024) is transparent: compiled paths are pure values",
         "Dict children iterate in insertion order (field order for Dict, set() order for SparseDict; 15% of the "
         "generated Dicts are SparseDicts); every mapping child is stored under its own name (key = name)",
-        "a zero slice stride denotes Python's ValueError; the code reads it as 1 (modelled; KF-C14-b, "
-        "C14_zero_step_fails); the positive theorems exclude it (Step.wf)",
+        "a slice step written as 0 raises ValueError when it is reached (9884fd3; zero_step_raises, "
+        "find_print_denotes_lax); with strict lookups AND such a step a path can raise LookupError or ValueError, "
+        "whichever element is evaluated first: the strict theorems assume no zero step (UniSteps), the oracle then "
+        "accepts either error kind that some element raises",
+        "a start element that was removed from its List (popped / deleted / replaced) is outside model A: oracle "
+        "only (expected: it is the root of its own tree); the expression cache is emptied by the oracle when full",
     ]
     level_text = "proof"
     level_note = ""
@@ -262,6 +309,9 @@ class C14(Property):
         if history:
             c["init"] = init
             c["history"] = history
+            removed = cm.removed_subjects(init, history, tree)
+            if removed:
+                c["removed"] = removed
         if as_segments:
             c["as_segments"] = as_segments
         if ast is not None:
@@ -307,7 +357,17 @@ class C14(Property):
                                ("/[:]", {"top": True, "trail": False, "steps": [{"t": "slice", "a": None, "b": None, "sep": False}]}),
                                ("/0", {"top": True, "trail": False, "steps": [{"t": "name", "s": "0", "br": False, "sep": False, "escall": False}]})):
                     out.append(self._case(dc["tree"], st, pth, False, False, a, None, dc["init"], dc["history"]))
-        # open: KF-C14-b — a slice step written as zero is read as 1
+        # fixed 7fae77d: '..' from a member whose slot was popped from its list yielded [None]; it stays put
+        l2 = cm.number({"k": "l", "name": "m", "member": {"k": "s", "name": None},
+                        "kids": [{"k": "s", "name": None, "kids": []}, {"k": "s", "name": None, "kids": []}]})
+        hp = [{"at": [], "op": "pop", "i": 0}]
+        for pth, a in (("..", {"top": False, "trail": False, "steps": [{"t": "up"}]}),
+                       ("../..", {"top": False, "trail": False, "steps": [{"t": "up"}, {"t": "up"}]}),
+                       (".", {"top": False, "trail": False, "steps": [{"t": "here"}]})):
+            out.append(self._case(cm.simulate(l2, hp), 1, pth, True, False, a, None, l2, hp))
+        # open KF-C14-d: '/' from the popped member is its old ListSlot
+        out.append(self._case(cm.simulate(l2, hp), 1, "/", True, False, {"top": True, "trail": False, "steps": []}, None, l2, hp))
+        # fixed 9884fd3 (was KF-C14-b): a slice step written as zero was read as 1; it now raises ValueError
         astz = {"top": False, "trail": False, "steps": [{"t": "slice", "a": None, "b": None, "c": {"v": 0}, "sep": False}]}
         out.append(self._case(lst, 0, "[::0]", True, False, astz))
         astz2 = {"top": False, "trail": False, "steps": [
@@ -350,7 +410,7 @@ class C14(Property):
                     for c in vals:
                         ast = {"top": False, "trail": False,
                                "steps": [{"t": "slice", "a": a, "b": b, "c": {"v": c}, "sep": False}]}
-                        # c == 0: Python's slice raises ValueError, the code reads it as 1 (KF-C14-b)
+                        # c == 0: Python's slice raises ValueError, and so does find() since 9884fd3
                         yield self._case(arr, 0, cm.print_path(ast), True, False, ast)
             for k in range(0, bound + 3):
                 ast = {"top": False, "trail": False, "steps": [{"t": "neg", "n": k, "sep": False}]}
@@ -389,10 +449,28 @@ class C14(Property):
             nodes = list(cm.preorder(tree))
             # elements queried while detached and grafted afterwards: evaluate from them, absolute paths too
             grafted = [x for x in nodes if x["id"] in set(cm.grafted_ids(history))]
+            removed = cm.removed_subjects(init, history, tree) if history else []
             per_tree = rng.choice([4, 8, 12])
             for _ in range(per_tree):
                 if made >= n:
                     break
+                if removed and rng.random() < 0.35:
+                    # start from (inside) a member that was popped / deleted / replaced: it is the root of its
+                    # own tree now; Canon paths without zero strides, walked along the removed subtree
+                    rec = rng.choice(removed)
+                    sub = rec["node"]
+                    start = rng.choice(list(cm.preorder(sub)))
+                    top = rng.random() < 0.5
+                    steps = _rand_steps(rng, sub, sub if top else start, rng.choice([0, 1, 1, 2, 3]),
+                                        p_miss=rng.choice([0.0, 0.1]), canon=True)
+                    for st in steps:
+                        if st["t"] == "slice" and "c" in st and st["c"]["v"] == 0:
+                            st["c"]["v"] = 1
+                    ast = {"top": top, "trail": False, "steps": steps}
+                    yield self._case(tree, start["id"], cm.print_path(ast), rng.random() < 0.5, rng.random() < 0.3,
+                                     ast, None, init, history)
+                    made += 1
+                    continue
                 containers = [x for x in nodes if x["kids"]]
                 r0 = rng.random()
                 from_grafted = bool(grafted) and rng.random() < 0.5
@@ -421,6 +499,10 @@ class C14(Property):
                     yield self._case(tree, start["id"], cm.print_path(ast), strict, single, ast, rng.choice([None] * 17 + ["list", "list", "tuple"]), init, history)
                 made += 1
 
+    def has_model(self, case):
+        # model A is one tree; a start element that was removed from its list is outside it (oracle only)
+        return any(n["id"] == case["start"] for n in cm.preorder(case["tree"]))
+
     # -------------------------------------------------------------- implementation
     def run_impl(self, case):
         root, byid, label = cm.build_case(case)
@@ -444,8 +526,25 @@ class C14(Property):
         start = byid[case["start"]]
         path, strict, single = case["path"], case["strict"], case["single"]
         fails = []
+        removed = _removed_ids(case, byid)
         observed = _find_obs(start, label, path, single, strict)
         as_list = _find_obs(start, label, path, False, strict)
+        # the expression cache is transparent: the same string evaluated again (now served from the cache, as
+        # long as fewer than max_cache_size strings were compiled in this process) and the compiled expression
+        # object give the same outcome
+        from flatland.schema import paths as _paths
+        again = _find_obs(start, label, path, single, strict)
+        try:
+            compiled = _paths.pathexpr(path)
+            via_object = _find_obs(start, label, compiled, single, strict)
+        except ValueError:
+            via_object = {"error": "ValueError"}
+        if again != observed or via_object != observed:
+            fails.append({"clause": "cache-transparent", "expected": observed, "observed": [again, via_object]})
+        if len(_paths.expression_cache) >= _paths.max_cache_size:
+            # the cache never evicts: once full, every new string is compiled afresh for good; empty it so that
+            # later cases go through the cache-hit path again (as in a fresh process)
+            _paths.expression_cache.clear()
         # the single= table, stated on the list result of the same call
         if single:
             want = cm.single_of(strict, as_list)
@@ -480,46 +579,45 @@ class C14(Property):
             # (document order = preorder rank in the tree)
             ascending = all(not (st["t"] == "slice" and "c" in st and (st["c"]["v"] or 1) < 0) for st in ast["steps"])
             if cm.canon_ast(ast) and ascending and "list" in as_list:
-                rank = {n["id"]: i for i, n in enumerate(cm.preorder(case["tree"]))}
+                order = list(cm.preorder(case["tree"]))
+                for rec in case.get("removed", []):
+                    order += list(cm.preorder(rec["node"]))
+                rank = {n["id"]: i for i, n in enumerate(order)}
                 ids = as_list["list"]
                 ranks = [rank.get(x, -1) for x in ids]
                 if any(r < 0 for r in ranks) or any(a >= b for a, b in zip(ranks, ranks[1:])):
                     fails.append({"clause": "sequence-order", "expected": "strictly increasing preorder ranks",
                                   "observed": ids})
-            want = _denote_obs(ast, start, label, single, strict)
-            lax_several = single and not strict and "one" in want and len(
-                _denote_obs(ast, start, label, False, strict).get("list", [])) > 1
-            if lax_several:
-                pass  # covered by the single-table clause (unspecified element)
-            elif observed != want:
+            want = _expectation(ast, start, label, single, strict, removed)
+            if not _matches(observed, want):
                 fails.append({"clause": "denotation", "expected": want, "observed": observed, "path": path})
         return fails
 
     def classify(self, case, failure):
-        if failure.get("clause") != "denotation":
-            return None
         ast = case.get("ast")
         if ast is None:
             return None
         root, byid, label = cm.build_case(case)
         start = byid[case["start"]]
-        observed = failure.get("observed")
-        if cm.has_zero_step(ast):
-            # KF-C14-b: a slice step written as zero; the implementation returns the denotation for step 1
-            # (of the cancelled path when, in addition, KF-C14-a applies)
-            ast1 = cm.zero_steps_as_one(ast)
-            if observed == _denote_obs(ast1, start, label, case["single"], case["strict"]):
-                return "KF-C14-b"
-            if not cm.canon_ast(ast1) and observed == _denote_obs(
-                    cm.cancel_ups(ast1), start, label, case["single"], case["strict"]):
-                return "KF-C14-b"
+        single, strict = case["single"], case["strict"]
+        if not self.has_model(case):
+            # KF-C14-d: the start element was removed from its List (popped / deleted / replaced) but still
+            # points at its old slot: the implementation evaluates the path along the raw parent pointers
+            if failure.get("clause") not in ("denotation", "unexpected-exception", "results-are-elements", "sequence-order"):
+                return None
+            observed = _find_obs(start, label, case["path"], single, strict)
+            if observed == _asis_obs(ast, start, label, single, strict) and not _matches(
+                    observed, _expectation(ast, start, label, single, strict, _removed_ids(case, byid))):
+                return "KF-C14-d"
             return None
+        if failure.get("clause") != "denotation":
+            return None
+        observed = failure.get("observed")
         # KF-C14-a: the path has an `X/..` pair (X a name, index or slice step, `.` steps ignored) and the
         # implementation returns exactly the denotation of the path with those pairs deleted
         if cm.canon_ast(ast):
             return None
-        cancelled = _denote_obs(cm.cancel_ups(ast), start, label, case["single"], case["strict"])
-        if cancelled == observed:
+        if _matches(observed, _expectation(cm.cancel_ups(ast), start, label, single, strict)):
             return "KF-C14-a"
         return None
 
@@ -574,6 +672,9 @@ class C14(Property):
             t.append("start-below-root")
         if case.get("as_segments"):
             t.append("path-as-%s" % case["as_segments"])
+        if not self.has_model(case):
+            rec = [r for r in case.get("removed", []) if any(n["id"] == case["start"] for n in cm.preorder(r["node"]))]
+            t.append("start-in-removed-member:%s" % (rec[0]["how"] if rec else "?"))
         if case.get("history"):
             t.append("tree-after-list-history")
             if any(op["op"] == "query" for op in case["history"]):
@@ -619,14 +720,21 @@ C14.rule = (
     "with path evaluations in between and with members that are built detached, queried and then grafted (such "
     "elements are preferred start elements, 70% absolute paths); non-trivial = AST of >= 2 steps, or >= 2 ops, or an error")
 C14.level_note = (
-    "Proved in Lean for all trees/starts/strict/single: FIFO work list = depth-first reading (evalOps_denotes); find = "
-    "single-table of that reading of tokenize(path) for EVERY string (find_denotes, single_spec); compiled AST = spec "
-    "denotation incl. [-n], slice defaults (denOps_compile); tokenizer∘printer for the whole concrete grammar "
-    "(tokenize_print); end to end find(print p) = denote p on the Canon domain (find_print_denotes) and = denote "
-    "(cancel p) for every path (find_print_cancel, the exact content of KF-C14-a; C14_full_fails is the negation "
-    "witness); results strictly increasing in document order (find_sorted). Tied to the code by correspondence only: "
-    "scan = _tokenize_re.findall (regex text pinned; exhaustive over all strings of length <= 4/5 over `/.[]:-01a\\`), "
-    "pyInt = int() and pySlice = list slicing (exhaustive small scopes against Python itself), the element-tree "
-    "navigation (_index, parent, root, children) of the real classes.")
+    "Proved in Lean for all trees/starts/single, for evaluations that can raise one kind of error only (no slice "
+    "step written as 0, or non-strict lookups: Uni/UniSteps): FIFO work list = depth-first reading "
+    "(evalOps_denotes); find = the single-table of that reading of tokenize(path) for every string that compiles "
+    "(find_denotes; single_spec restates the match of the model's find, i.e. holds by construction); compiled AST "
+    "= spec denotation incl. [-n], slice defaults, zero strides (denOps_compile); tokenizer∘printer for the whole "
+    "concrete grammar incl. zero strides and a name ending in a backslash as last step (tokenize_print); end to "
+    "end find(print p) = denote p on the Canon domain (find_print_denotes, find_print_denotes_lax) and = denote "
+    "(cancel p) for every path (find_print_cancel, the exact content of KF-C14-a; C14_full_fails is its negation "
+    "witness); a step written as 0 raises ValueError when reached, strict or not (zero_step_raises, "
+    "C14_zero_step_ok — KF-C14-b is closed by 9884fd3); results strictly increasing in document order "
+    "(find_sorted). Not proved: strict lookups on a path that also has a zero step (LookupError vs ValueError "
+    "depends on evaluation order; correspondence + oracle accepting either). Tied to the code by correspondence "
+    "only: scan = _tokenize_re.findall (regex text pinned; exhaustive over all strings of length <= 4/5 over "
+    "`/.[]:-01a\\`), pyInt = int() and pySlice = list slicing (exhaustive small scopes against Python itself), the "
+    "element-tree navigation (_index, parent, root, children) of the real classes; start elements removed from "
+    "their List are checked by the oracle only (KF-C14-d).")
 
 PROP = C14()
